@@ -319,6 +319,8 @@ def run(ck, m):
             if isinstance(c, ast.Call) and isinstance(c.func, ast.Attribute) and c.func.attr in ("_check_format_spec", "_check_style_format_spec", "_check_style_args"):
                 n5 += 1
                 recv = norm(trace(fn, c.func.value, use=c))
+                if recv == "__class__":  # N18: the enclosing class named literally
+                    recv = q.split(".")[0]
                 ck.ob("R5", enclosing_stmt(c), recv not in ROOTS, f"{q}: `{short(c, 60)}` checks the specifier against `{recv}` itself, whose style grammar is empty: every style-specific part "
                       "would be rejected (or accepted) regardless of the image's own style", stmt=f"{q}: {c.func.attr} called on the image / its class")
     ck.expect(n5 >= 5, f"call sites of the specifier checkers found: {n5}")
@@ -360,6 +362,8 @@ MUTANTS = [
     M("overlap-patterns", T, None, '"[LWA] m[01] c[0-9]"', '"[LWAm] m[01] c[0-9]"', {"R3"}),
     M("search-not-match", CM, "BaseImage._get_style_format_spec", "match = pattern.match(spec, pos=end)", "match = pattern.search(spec, pos=end)", {"R3"}),
     M("side-effect", CM, "BaseImage._check_style_args", "        return style_args\n", "        cls._last_style_args = style_args\n        return style_args\n", {"R4"}),
+    M("format-via-base-class", CM, "BaseImage.__format__", "style_args = self._check_format_spec(", "style_args = BaseImage._check_format_spec(", {"R5"}),
+    M("style-spec-via-base-class", CM, "BaseImage._check_format_spec", "style_spec and cls._check_style_format_spec(style_spec, style_spec)", "style_spec and BaseImage._check_style_format_spec(style_spec, style_spec)", {"R5"}),
     M("twin-raw-grammar", CM, None, "[0-9a-fA-F]{6}|#)?)?(\\+(.+))?\",\n    re.ASCII,", "[0-9A-Fa-f]{6}|#)?)?(\\+(.+))?\",\n    re.ASCII,", twin=True),
     M("twin-rename-local", CM, "BaseImage._check_format_spec", "match_", "m_", twin=True, count=3),
 ]
